@@ -58,6 +58,8 @@ pub fn catch<T>(f: impl FnOnce() -> T) -> Result<T, String> {
 }
 
 thread_local! {
+    /// number of panics seen by the hook on this thread (also those swallowed by tokio tasks)
+    pub static PANIC_COUNT: std::cell::Cell<u64> = const { std::cell::Cell::new(0) };
     pub static LAST_PANIC_LOC: std::cell::RefCell<String> = std::cell::RefCell::new(String::new());
 }
 
@@ -73,6 +75,17 @@ pub fn install_panic_hook() {
             })
             .unwrap_or_default();
         LAST_PANIC_LOC.with(|l| *l.borrow_mut() = loc);
+        PANIC_COUNT.with(|c| c.set(c.get() + 1));
+        if std::env::var("VERIF_BACKTRACE").is_ok() {
+            let bt = std::backtrace::Backtrace::force_capture().to_string();
+            let frames: Vec<&str> = bt
+                .lines()
+                .filter(|l| (l.contains("tako::") || l.contains("hyperqueue::")) && !l.contains("verif"))
+                .map(|l| l.trim())
+                .take(12)
+                .collect();
+            eprintln!("PANIC BACKTRACE:\n  {}", frames.join("\n  "));
+        }
     }));
 }
 
